@@ -2,7 +2,7 @@
    Statements only; proofs in proofs/AbftDfs.v AbftChain.v AbftSeal.v AbftProcess.v. *)
 From Coq Require Import NArith List.
 From LV Require Import model.VecIndex model.Abft model.AbftRun spec.AbftSpec proofs.AbftFrame
-  proofs.AbftDfs proofs.AbftDfsFuel proofs.AbftSeal proofs.AbftProcess proofs.AbftChain proofs.AbftRoots proofs.AbftRooted proofs.AbftRunInv proofs.VecStep proofs.AbftInv proofs.AbftInvStep proofs.AbftGraph proofs.AbftFuel proofs.AbftSealWitness.
+  proofs.AbftDfs proofs.AbftDfsFuel proofs.AbftSeal proofs.AbftProcess proofs.AbftChain proofs.AbftRoots proofs.AbftRooted proofs.AbftRunInv proofs.VecStep proofs.AbftInv proofs.AbftInvStep proofs.AbftGraph proofs.AbftFuel proofs.AbftClosedInv proofs.AbftSealWitness.
 Import ListNotations.
 Local Open Scope N_scope.
 
@@ -90,6 +90,17 @@ Theorem C02_root_table_is_graph_slots : forall i, J i -> forall r,
   exists e, In (a_id e) (i_proc i) /\ get_event (i_es i) (a_id e) = Some e /\ slot_of (i_es i) e r.
 Proof. intros i HJ. exact (j_roots i HJ). Qed.
 
+(* audit-F: the hypothesis "confirmed marks are ancestor-closed" of C02_process_delivers holds before every
+   operation of every run (the event store grows by accepted events and shrinks by rejected ones in between),
+   and only accepted events of the epoch are ever marked: so within an epoch no event is delivered twice and
+   every delivered event's ancestors were delivered no later, over whole runs.  [ops_wf]: events passing the
+   guard are well-formed for the index; [alive]: no operation hit crit. *)
+Theorem C02_confirmed_closed_on_every_run : forall cap pol smp epoch raw ops,
+  ops_wf cap pol smp (start epoch raw) ops -> alive cap pol smp (start epoch raw) ops ->
+  let i := run_inst cap pol smp (start epoch raw) ops in
+  closed (i_es i) (l_conf (i_st i)) /\ (forall x, marked (l_conf (i_st i)) x -> In x (i_proc i)).
+Proof. intros. apply run_K; auto; [apply start_J | apply start_good | apply start_K]. Qed.
+
 (* audit-F F4: no call ever runs out of the model's fuel (all loops: frame computation, processKnownRoots,
    bootstrapElection, handleElection, the confirm DFS); V and elinv hold in every reachable state *)
 Theorem C02_process_never_out_of_fuel : forall cap eb es st e, V st -> elinv st ->
@@ -124,5 +135,6 @@ Print Assumptions C02_V_initially.
 Print Assumptions C02_invariants_hold_on_every_run.
 Print Assumptions C02_atropos_is_graph_root.
 Print Assumptions C02_root_table_is_graph_slots.
+Print Assumptions C02_confirmed_closed_on_every_run.
 Print Assumptions C02_process_never_out_of_fuel.
 Print Assumptions C02_bootstrap_never_out_of_fuel.
